@@ -2348,4 +2348,437 @@ theorem henselQ_spec (d m : Nat) (hd0 : 0 < d) (hdB : d < B) (hinv : (d * m) % B
     rw [this, a4]; ring
 
 
+theorem henselPair_unfold (d ml mh xl xh h c : Nat) :
+    henselPair d ml mh xl xh h c =
+      (((sub_ddmmss xh xl 0 ((h + c) % B)).2 * ml) % B,
+       ((((sub_ddmmss xh xl 0 ((h + c) % B)).2 * ml) / B + ((sub_ddmmss xh xl 0 ((h + c) % B)).1 * ml) % B) % B +
+          ((sub_ddmmss xh xl 0 ((h + c) % B)).2 * mh) % B) % B,
+       (if (((((sub_ddmmss xh xl 0 ((h + c) % B)).2 * ml) / B + ((sub_ddmmss xh xl 0 ((h + c) % B)).1 * ml) % B) % B +
+          ((sub_ddmmss xh xl 0 ((h + c) % B)).2 * mh) % B) % B * d) % B > (sub_ddmmss xh xl 0 ((h + c) % B)).1
+        then ((((((sub_ddmmss xh xl 0 ((h + c) % B)).2 * ml) / B + ((sub_ddmmss xh xl 0 ((h + c) % B)).1 * ml) % B) % B +
+          ((sub_ddmmss xh xl 0 ((h + c) % B)).2 * mh) % B) % B * d) / B + 1) % B
+        else (((((sub_ddmmss xh xl 0 ((h + c) % B)).2 * ml) / B + ((sub_ddmmss xh xl 0 ((h + c) % B)).1 * ml) % B) % B +
+          ((sub_ddmmss xh xl 0 ((h + c) % B)).2 * mh) % B) % B * d) / B),
+       if xh == 0 && (h + c) % B > xl then 1 else 0) := rfl
+
+/-- the arithmetic core of the two-limb step: with ml·d = hB·B + 1 and mh ≡ −ml·hB (mod B), the
+    two-limb quotient ⟨qh,ql⟩ = ⟨xh',xl'⟩·⟨mh,ml⟩ mod B² satisfies ⟨qh,ql⟩·d = ⟨xh',xl'⟩ + H·B² with
+    H = hi(qh·d) + [lo(qh·d) > xh'] -/
+theorem henselPair_core (d ml mh hB xl' xh' a ql qh h0 h1 : ℤ) (Bz : ℤ) (hBz : 0 < Bz)
+    (hmld : ml * d = hB * Bz + 1) (hmh : mh ≡ -(ml * hB) [ZMOD Bz])
+    (hxl : 0 ≤ xl') (hxl' : xl' < Bz) (hxh : 0 ≤ xh') (hxh' : xh' < Bz)
+    (hp : xl' * ml = a * Bz + ql) (hql : 0 ≤ ql) (hql' : ql < Bz)
+    (hqh : qh ≡ a + xh' * ml + xl' * mh [ZMOD Bz])
+    (hhh : qh * d = h0 * Bz + h1) (hh1 : 0 ≤ h1) (hh1' : h1 < Bz) (hd0 : 0 < d) (hdB : d < Bz) :
+    (ql + qh * Bz) * d = xl' + xh' * Bz + (if h1 > xh' then h0 + 1 else h0) * (Bz * Bz) := by
+  -- qh·d ≡ a·d + xh' − xl'·hB (mod B)
+  have hmld' : ml * d ≡ 1 [ZMOD Bz] := by
+    rw [hmld]; exact Int.modEq_iff_dvd.mpr ⟨-hB, by ring⟩
+  have hmhd : mh * d ≡ -hB [ZMOD Bz] := by
+    have h1 : mh * d ≡ -(ml * hB) * d [ZMOD Bz] := hmh.mul_right d
+    have h2 : -(ml * hB) * d = -hB * (ml * d) := by ring
+    rw [h2] at h1
+    have h3 : -hB * (ml * d) ≡ -hB * 1 [ZMOD Bz] := hmld'.mul_left _
+    rw [mul_one] at h3
+    exact h1.trans h3
+  have hqhd : qh * d ≡ a * d + xh' - xl' * hB [ZMOD Bz] := by
+    have h1 : qh * d ≡ (a + xh' * ml + xl' * mh) * d [ZMOD Bz] := hqh.mul_right d
+    have h2 : (a + xh' * ml + xl' * mh) * d = a * d + xh' * (ml * d) + xl' * (mh * d) := by ring
+    rw [h2] at h1
+    have h3 : a * d + xh' * (ml * d) + xl' * (mh * d) ≡ a * d + xh' * 1 + xl' * (-hB) [ZMOD Bz] :=
+      ((Int.ModEq.refl _).add (hmld'.mul_left _)).add (hmhd.mul_left _)
+    have h4 : a * d + xh' * 1 + xl' * (-hB) = a * d + xh' - xl' * hB := by ring
+    rw [h4] at h3
+    exact h1.trans h3
+  obtain ⟨k1, hk1⟩ := Int.modEq_iff_dvd.mp hqhd
+  -- ql·d = xl' + (xl'·hB − a·d)·B
+  have hqld : ql * d = xl' + (xl' * hB - a * d) * Bz := by
+    have : ql = xl' * ml - a * Bz := by linarith
+    rw [this]
+    have : (xl' * ml - a * Bz) * d = xl' * (ml * d) - a * d * Bz := by ring
+    rw [this, hmld]; ring
+  -- total: (ql + qh B) d = xl' + xh' B − k1 B²
+  have htot : (ql + qh * Bz) * d = xl' + xh' * Bz + (-k1) * (Bz * Bz) := by
+    have : (ql + qh * Bz) * d = ql * d + (qh * d) * Bz := by ring
+    rw [this, hqld]
+    have : qh * d = a * d + xh' - xl' * hB - Bz * k1 := by linarith
+    rw [this]; ring
+  -- identify −k1 with h0 + carry
+  have hsum : (qh * d) * Bz + ql * d = xl' + xh' * Bz + (-k1) * (Bz * Bz) := by
+    rw [← htot]; ring
+  -- low limb of ql·d: write ql·d = hl·B + ll
+  have hll : ql * d = (ql * d / Bz) * Bz + (ql * d) % Bz := by
+    have := Int.mul_ediv_add_emod (ql * d) Bz; linarith
+  have hll0 : 0 ≤ (ql * d) % Bz := Int.emod_nonneg _ (ne_of_gt hBz)
+  have hll1 : (ql * d) % Bz < Bz := Int.emod_lt_of_pos _ hBz
+  have hhl0 : 0 ≤ ql * d / Bz := Int.ediv_nonneg (mul_nonneg hql (le_of_lt hd0)) (le_of_lt hBz)
+  have hhl1 : ql * d / Bz < Bz := by
+    have : ql * d < Bz * Bz := by nlinarith
+    exact Int.ediv_lt_of_lt_mul hBz this
+  generalize ql * d / Bz = hl at *
+  generalize (ql * d) % Bz = ll at *
+  -- ll = xl'
+  have hllx : ll = xl' := by
+    have h1 : ll - xl' = Bz * (xl' * hB - a * d - hl) := by linarith
+    have h2 : -Bz < ll - xl' := by linarith
+    have h3 : ll - xl' < Bz := by linarith
+    have : xl' * hB - a * d - hl = 0 := by
+      by_contra hne
+      rcases lt_or_gt_of_ne hne with hlt | hgt
+      · have : Bz * (xl' * hB - a * d - hl) ≤ Bz * (-1) := mul_le_mul_of_nonneg_left (by linarith) (le_of_lt hBz)
+        linarith
+      · have : Bz * 1 ≤ Bz * (xl' * hB - a * d - hl) := mul_le_mul_of_nonneg_left (by linarith) (le_of_lt hBz)
+        linarith
+    rw [this] at h1; linarith
+  subst hllx
+  -- hl + h1 = xh' + (−k1 − h0)·B
+  have hmid : hl + h1 - xh' = (-k1 - h0) * Bz := by
+    have e1 : (h0 * Bz + h1) * Bz + (hl * Bz + ll) = ll + xh' * Bz + (-k1) * (Bz * Bz) := by
+      rw [← hhh, ← hll]; exact hsum
+    have e2 : (hl + h1 - xh') * Bz = ((-k1 - h0) * Bz) * Bz := by linarith
+    exact mul_right_cancel₀ (ne_of_gt hBz) e2
+  have hlo : -Bz < hl + h1 - xh' := by linarith
+  have hhi : hl + h1 - xh' < 2 * Bz := by linarith
+  have heps : -k1 - h0 = 0 ∨ -k1 - h0 = 1 := by
+    have h1' : -1 < -k1 - h0 := by
+      by_contra hc; rw [not_lt] at hc
+      have : (-k1 - h0) * Bz ≤ (-1) * Bz := mul_le_mul_of_nonneg_right hc (le_of_lt hBz)
+      linarith
+    have h2' : -k1 - h0 < 2 := by
+      by_contra hc; rw [not_lt] at hc
+      have : 2 * Bz ≤ (-k1 - h0) * Bz := mul_le_mul_of_nonneg_right hc (le_of_lt hBz)
+      linarith
+    omega
+  rw [htot]
+  rcases heps with h | h
+  · rw [h] at hmid
+    have : ¬ (h1 > xh') := by linarith
+    rw [if_neg this]
+    have : -k1 = h0 := by linarith
+    rw [this]
+  · rw [h] at hmid
+    have : h1 > xh' := by linarith
+    rw [if_pos this]
+    have : -k1 = h0 + 1 := by linarith
+    rw [this]
+
+
+theorem henselPair_spec (d ml mh xl xh h c : Nat) (hxl : xl < B) (hxh : xh < B) (hT : h + c < B)
+    (hd0 : 0 < d) (hdB : d < B) (hinv : (d * ml) % B = 1) (hml : ml < B)
+    (hmh : mh = (ml * ((B - (d * ml) / B) % B)) % B) :
+    (henselPair d ml mh xl xh h c).1 < B ∧ (henselPair d ml mh xl xh h c).2.1 < B ∧
+    (henselPair d ml mh xl xh h c).2.2.1 + (henselPair d ml mh xl xh h c).2.2.2 < B ∧
+    xl + xh * B + ((henselPair d ml mh xl xh h c).2.2.2 + (henselPair d ml mh xl xh h c).2.2.1) * (B * B) =
+      ((henselPair d ml mh xl xh h c).1 + (henselPair d ml mh xl xh h c).2.1 * B) * d + (h + c) := by
+  have hB := B_pos
+  have hBB : 0 < B * B := Nat.mul_pos hB hB
+  have hBleBB : B ≤ B * B := Nat.le_mul_of_pos_left _ hB
+  rw [henselPair_unfold, Nat.mod_eq_of_lt hT, Nat.add_comm xl (xh * B)]
+  generalize h + c = t at *
+  -- the two-limb subtraction
+  rw [sub_ddmmss_eq xh xl 0 t hxh hxl hB hT, pair2_mod]
+  simp only
+  have hX : xh * B + xl < B * B := by
+    have : (xh + 1) * B ≤ B * B := Nat.mul_le_mul_right _ hxh
+    have : (xh + 1) * B = xh * B + B := by ring
+    omega
+  have hc' : (if (xh == 0 && decide (t > xl)) = true then 1 else 0) = if xh * B + xl < t then 1 else 0 := by
+    by_cases h0 : xh = 0
+    · subst h0; simp
+    · have : ¬ (xh * B + xl < t) := by
+        have : B ≤ xh * B := Nat.le_mul_of_pos_left _ (Nat.pos_of_ne_zero h0)
+        omega
+      simp [h0, this]
+  rw [hc', Nat.zero_mul, Nat.zero_add]
+  generalize xh * B + xl = X2 at *
+  have hR : (X2 + B * B - t) % (B * B) < B * B := Nat.mod_lt _ hBB
+  have hRt : ∃ cb, cb ≤ 1 ∧ (if X2 < t then 1 else 0) = cb ∧ (X2 + B * B - t) % (B * B) + t = X2 + cb * (B * B) := by
+    by_cases hlt : X2 < t
+    · refine ⟨1, le_refl _, if_pos hlt, ?_⟩
+      rw [Nat.mod_eq_of_lt (by omega)]; omega
+    · refine ⟨0, by omega, if_neg hlt, ?_⟩
+      have : X2 + B * B - t = (X2 - t) + B * B := by omega
+      rw [this, Nat.add_mod_right, Nat.mod_eq_of_lt (by omega)]; omega
+  obtain ⟨cb, hcb, hcbe, hRt⟩ := hRt
+  rw [hcbe]
+  generalize (X2 + B * B - t) % (B * B) = R at *
+  have hxh'B : R / B < B := (Nat.div_lt_iff_lt_mul hB).mpr hR
+  have hxl'B : R % B < B := Nat.mod_lt _ hB
+  have hRdm := Nat.div_add_mod' R B
+  generalize R / B = xh' at *
+  generalize R % B = xl' at *
+  -- all quotients / remainders as fresh naturals
+  have hqlB : (xl' * ml) % B < B := Nat.mod_lt _ hB
+  have hp := Nat.div_add_mod' (xl' * ml) B
+  generalize (xl' * ml) / B = a at *
+  generalize (xl' * ml) % B = ql at *
+  have hm1 := Nat.div_add_mod' (xh' * ml) B
+  generalize (xh' * ml) / B = j1 at *
+  generalize (xh' * ml) % B = m1 at *
+  have hm2 := Nat.div_add_mod' (xl' * mh) B
+  generalize (xl' * mh) / B = j2 at *
+  generalize (xl' * mh) % B = m2 at *
+  have hm3 := Nat.div_add_mod' (a + m1) B
+  generalize (a + m1) / B = j3 at *
+  generalize (a + m1) % B = m3 at *
+  have hqhB : (m3 + m2) % B < B := Nat.mod_lt _ hB
+  have hm4 := Nat.div_add_mod' (m3 + m2) B
+  generalize (m3 + m2) / B = j4 at *
+  generalize (m3 + m2) % B = qh at *
+  have hhh := Nat.div_add_mod' (qh * d) B
+  have hh1B : (qh * d) % B < B := Nat.mod_lt _ hB
+  generalize (qh * d) / B = h0 at *
+  generalize (qh * d) % B = h1 at *
+  have hmld := Nat.div_add_mod' (d * ml) B
+  rw [hinv] at hmld
+  have hhBlt : d * ml / B < B := by
+    rw [Nat.div_lt_iff_lt_mul hB]
+    have h1' : d * ml ≤ d * B := Nat.mul_le_mul_left _ (Nat.le_of_lt hml)
+    have h2' : d * B < B * B := Nat.mul_lt_mul_of_pos_right hdB hB
+    omega
+  generalize d * ml / B = hBn at *
+  have hnb := Nat.div_add_mod' (B - hBn) B
+  have hnbe : (B - hBn) % B + hBn = B * (1 - (B - hBn) / B) := by
+    rcases Nat.eq_zero_or_pos hBn with h0 | h0
+    · subst h0
+      rw [Nat.sub_zero, Nat.mod_self, Nat.div_self hB, Nat.sub_self, Nat.mul_zero]
+    · rw [Nat.mod_eq_of_lt (by omega), Nat.div_eq_of_lt (by omega)]; omega
+  generalize (B - hBn) / B = j5 at *
+  generalize (B - hBn) % B = nb at *
+  have hm6 := Nat.div_add_mod' (ml * nb) B
+  rw [← hmh] at hm6
+  generalize (ml * nb) / B = j6 at *
+  -- the core lemma over ℤ
+  have z := fun {a b : ℕ} (e : a = b) => congrArg (Nat.cast : ℕ → ℤ) e
+  have e_p := z hp; have e_m1 := z hm1; have e_m2 := z hm2; have e_m3 := z hm3; have e_m4 := z hm4
+  have e_hh := z hhh; have e_mld := z hmld; have e_nbe := z hnbe; have e_m6 := z hm6
+  push_cast at e_p e_m1 e_m2 e_m3 e_m4 e_hh e_mld e_nbe e_m6
+  have hj5 : j5 ≤ 1 := by
+    by_contra hcon
+    have : 2 * B ≤ j5 * B := Nat.mul_le_mul_right _ (by omega)
+    omega
+  have e_nbe' : (nb : ℤ) + hBn = B * (1 - j5) := by
+    rw [Nat.cast_sub hj5] at e_nbe; push_cast at e_nbe; exact e_nbe
+  have hmhz : (mh : ℤ) ≡ -((ml : ℤ) * hBn) [ZMOD (B : ℤ)] :=
+    Int.modEq_iff_dvd.mpr ⟨j6 - ml * (1 - j5), by linear_combination -e_m6 - (ml : ℤ) * e_nbe'⟩
+  have hqhz : (qh : ℤ) ≡ (a : ℤ) + xh' * ml + xl' * mh [ZMOD (B : ℤ)] :=
+    Int.modEq_iff_dvd.mpr ⟨(j1 : ℤ) + j2 + j3 + j4, by linear_combination -e_m1 - e_m2 - e_m3 - e_m4⟩
+  have core := henselPair_core (d : ℤ) ml mh hBn xl' xh' a ql qh h0 h1 (B : ℤ)
+    (Int.natCast_pos.mpr hB) (by linear_combination -e_mld) hmhz (Int.natCast_nonneg _) (Int.ofNat_lt.mpr hxl'B)
+    (Int.natCast_nonneg _) (Int.ofNat_lt.mpr hxh'B) (by linear_combination -e_p)
+    (Int.natCast_nonneg _) (Int.ofNat_lt.mpr hqlB) hqhz (by linear_combination -e_hh)
+    (Int.natCast_nonneg _) (Int.ofNat_lt.mpr hh1B) (Int.natCast_pos.mpr hd0) (Int.ofNat_lt.mpr hdB)
+  -- back to ℕ
+  have coreN : (ql + qh * B) * d = xl' + xh' * B + (if h1 > xh' then h0 + 1 else h0) * (B * B) := by
+    by_cases hc : h1 > xh'
+    · rw [if_pos hc]
+      rw [if_pos (by exact_mod_cast hc)] at core
+      have : (((ql + qh * B) * d : ℕ) : ℤ) = ((xl' + xh' * B + (h0 + 1) * (B * B) : ℕ) : ℤ) := by
+        push_cast; exact core
+      exact_mod_cast this
+    · rw [if_neg hc]
+      rw [if_neg (by exact_mod_cast hc)] at core
+      have : (((ql + qh * B) * d : ℕ) : ℤ) = ((xl' + xh' * B + h0 * (B * B) : ℕ) : ℤ) := by
+        push_cast; exact core
+      exact_mod_cast this
+  -- H < d
+  have hHd : (if h1 > xh' then h0 + 1 else h0) < d := by
+    have h1' : (ql + qh * B) * d < (B * B) * d := by
+      apply Nat.mul_lt_mul_of_pos_right _ hd0
+      have : (qh + 1) * B ≤ B * B := Nat.mul_le_mul_right _ hqhB
+      have : (qh + 1) * B = qh * B + B := by ring
+      omega
+    have h2' : (if h1 > xh' then h0 + 1 else h0) * (B * B) < d * (B * B) := by
+      rw [Nat.mul_comm d]; omega
+    exact Nat.lt_of_mul_lt_mul_right h2'
+  have hHeq : (if h1 > xh' then (h0 + 1) % B else h0) = if h1 > xh' then h0 + 1 else h0 := by
+    split
+    · rename_i hc; rw [if_pos hc] at hHd; exact Nat.mod_eq_of_lt (by omega)
+    · rfl
+  rw [hHeq]
+  generalize (if h1 > xh' then h0 + 1 else h0) = H at *
+  refine ⟨hqlB, hqhB, by omega, ?_⟩
+  rw [coreN]
+  have : X2 + (cb + H) * (B * B) = (X2 + cb * (B * B)) + H * (B * B) := by ring
+  rw [this, ← hRt, ← hRdm]; ring
+
+
+/-- unshifted quotient limbs and final carry of the two-limbs-at-a-time loop -/
+def henselQ2 (d ml mh : Nat) : List Nat → Nat → Nat → List Nat × Nat
+  | xl :: xh :: xs, h, c =>
+      ((henselPair d ml mh xl xh h c).1 :: (henselPair d ml mh xl xh h c).2.1 ::
+        (henselQ2 d ml mh xs (henselPair d ml mh xl xh h c).2.2.1 (henselPair d ml mh xl xh h c).2.2.2).1,
+       (henselQ2 d ml mh xs (henselPair d ml mh xl xh h c).2.2.1 (henselPair d ml mh xl xh h c).2.2.2).2)
+  | [x], h, c => ([(henselStep d ml x h c).1], ((henselStep d ml x h c).2.1 + (henselStep d ml x h c).2.2) % B)
+  | [], h, c => ([], (h + c) % B)
+
+theorem hensel12Go_pair (d ml mh s xl xh : Nat) (xs : List Nat) (h c qo : Nat) :
+    hensel12Go d ml mh s (xl :: xh :: xs) h c qo =
+      (henselOr qo (henselPair d ml mh xl xh h c).1 s ::
+        henselOr ((henselPair d ml mh xl xh h c).1 >>> s) (henselPair d ml mh xl xh h c).2.1 s ::
+        (hensel12Go d ml mh s xs (henselPair d ml mh xl xh h c).2.2.1 (henselPair d ml mh xl xh h c).2.2.2
+          ((henselPair d ml mh xl xh h c).2.1 >>> s)).1,
+       (hensel12Go d ml mh s xs (henselPair d ml mh xl xh h c).2.2.1 (henselPair d ml mh xl xh h c).2.2.2
+          ((henselPair d ml mh xl xh h c).2.1 >>> s)).2) := rfl
+
+/-- strong induction principle: lists two elements at a time -/
+theorem list_pair_induction {P : List Nat → Prop} (h0 : P []) (h1 : ∀ x, P [x])
+    (h2 : ∀ x y xs, P xs → P (x :: y :: xs)) : ∀ l, P l
+  | [] => h0
+  | [x] => h1 x
+  | x :: y :: xs => h2 x y xs (list_pair_induction h0 h1 h2 xs)
+
+theorem hensel12Go_eq (d ml mh s : Nat) (xs : List Nat) : ∀ h c qp,
+    hensel12Go d ml mh s xs h c (qp >>> s) = (shrList s qp (henselQ2 d ml mh xs h c).1, (henselQ2 d ml mh xs h c).2) := by
+  induction xs using list_pair_induction with
+  | h0 => intro h c qp; rfl
+  | h1 x => intro h c qp; rfl
+  | h2 xl xh xs ih =>
+    intro h c qp
+    rw [hensel12Go_pair, ih]
+    rfl
+
+theorem henselQ2_nil (d ml mh h c : Nat) : henselQ2 d ml mh [] h c = ([], (h + c) % B) := rfl
+theorem henselQ2_one (d ml mh x h c : Nat) : henselQ2 d ml mh [x] h c =
+      ([(henselStep d ml x h c).1], ((henselStep d ml x h c).2.1 + (henselStep d ml x h c).2.2) % B) := rfl
+theorem henselQ2_pair (d ml mh xl xh : Nat) (xs : List Nat) (h c : Nat) : henselQ2 d ml mh (xl :: xh :: xs) h c =
+      ((henselPair d ml mh xl xh h c).1 :: (henselPair d ml mh xl xh h c).2.1 ::
+        (henselQ2 d ml mh xs (henselPair d ml mh xl xh h c).2.2.1 (henselPair d ml mh xl xh h c).2.2.2).1,
+       (henselQ2 d ml mh xs (henselPair d ml mh xl xh h c).2.2.1 (henselPair d ml mh xl xh h c).2.2.2).2) := rfl
+
+theorem val_singleton (y : Nat) : val [y] = y := by rw [val_cons, val_nil, Nat.mul_zero, Nat.add_zero]
+
+theorem henselQ2_one_spec (d ml mh : Nat) (hd0 : 0 < d) (hdB : d < B) (hinv : (d * ml) % B = 1) (x h c : Nat)
+    (hT : h + c < B) (hx : x < B) :
+    val [x] + (henselQ2 d ml mh [x] h c).2 * B ^ [x].length = val (henselQ2 d ml mh [x] h c).1 * d + (h + c) ∧
+      Limbs (henselQ2 d ml mh [x] h c).1 ∧ (henselQ2 d ml mh [x] h c).1.length = [x].length := by
+  obtain ⟨a1, a2, a3, a4⟩ := henselStep_spec d ml x h c hx hT hd0 hdB hinv
+  rw [henselQ2_one]
+  generalize (henselStep d ml x h c).1 = q at *
+  generalize (henselStep d ml x h c).2.1 = h' at *
+  generalize (henselStep d ml x h c).2.2 = c' at *
+  have hlt : h' + c' < B := by omega
+  have e1 : ([q], (h' + c') % B).2 = h' + c' := Nat.mod_eq_of_lt hlt
+  have e2 : ([q], (h' + c') % B).1 = [q] := rfl
+  rw [e1, e2]
+  refine ⟨?_, Limbs_cons.mpr ⟨a1, Limbs_nil⟩, by rw [List.length_singleton, List.length_singleton]⟩
+  rw [List.length_singleton, pow_one, val_singleton, val_singleton, ← a4]; ring
+
+theorem henselQ2_spec (d ml mh : Nat) (hd0 : 0 < d) (hdB : d < B) (hinv : (d * ml) % B = 1) (hml : ml < B)
+    (hmh : mh = (ml * ((B - (d * ml) / B) % B)) % B) (xs : List Nat) :
+    ∀ h c, h + c < B → Limbs xs →
+    val xs + (henselQ2 d ml mh xs h c).2 * B ^ xs.length = val (henselQ2 d ml mh xs h c).1 * d + (h + c) ∧
+      Limbs (henselQ2 d ml mh xs h c).1 ∧ (henselQ2 d ml mh xs h c).1.length = xs.length := by
+  induction xs using list_pair_induction with
+  | h0 =>
+    intro h c hT _
+    rw [henselQ2_nil, Nat.mod_eq_of_lt hT]
+    exact ⟨by rw [val_nil, List.length_nil, pow_zero, Nat.zero_mul, Nat.mul_one, Nat.zero_add], Limbs_nil, rfl⟩
+  | h1 x =>
+    intro h c hT hl
+    exact henselQ2_one_spec d ml mh hd0 hdB hinv x h c hT (Limbs_cons.mp hl).1
+  | h2 xl xh xs ih =>
+    intro h c hT hl
+    have ⟨hxl, hl'⟩ := Limbs_cons.mp hl
+    have ⟨hxh, hxs⟩ := Limbs_cons.mp hl'
+    obtain ⟨a1, a2, a3, a4⟩ := henselPair_spec d ml mh xl xh h c hxl hxh hT hd0 hdB hinv hml hmh
+    rw [henselQ2_pair]
+    generalize (henselPair d ml mh xl xh h c).1 = ql at *
+    generalize (henselPair d ml mh xl xh h c).2.1 = qh at *
+    generalize (henselPair d ml mh xl xh h c).2.2.1 = h' at *
+    generalize (henselPair d ml mh xl xh h c).2.2.2 = c' at *
+    obtain ⟨e, hL, hlen⟩ := ih h' c' a3 hxs
+    refine ⟨?_, Limbs_cons.mpr ⟨a1, Limbs_cons.mpr ⟨a2, hL⟩⟩,
+      by rw [List.length_cons, List.length_cons, hlen, List.length_cons, List.length_cons]⟩
+    rw [val_cons, val_cons, val_cons, val_cons, List.length_cons, List.length_cons, pow_succ, pow_succ]
+    generalize (henselQ2 d ml mh xs h' c').2 = ret at *
+    generalize val (henselQ2 d ml mh xs h' c').1 = Vo at *
+    generalize val xs = Vx at *
+    generalize B ^ xs.length = P at *
+    have : xl + B * (xh + B * Vx) + ret * (P * B * B) = (xl + xh * B) + B * B * (Vx + ret * P) := by ring
+    rw [this, e]
+    have : xl + xh * B + B * B * (Vo * d + (h' + c')) = (xl + xh * B + (c' + h') * (B * B)) + B * B * (Vo * d) := by ring
+    rw [this, a4]; ring
+
+/-- contract of the 2-adic divisions: x + ret·B^n = Q·d + cin with Q < B^n, output = ⌊Q / 2^s⌋ -/
+def HenselSpec (x : List Nat) (d s cin : Nat) (res : List Nat × Nat) : Prop :=
+  ∃ Q, val x + res.2 * B ^ x.length = Q * d + cin ∧ Q < B ^ x.length ∧ val res.1 = Q / 2 ^ s ∧
+    Limbs res.1 ∧ res.1.length = x.length
+
+theorem rsh_divrem_hensel_qr_1_1_spec (x : List Nat) (d s cin : Nat) (hx : Limbs x) (hne : x ≠ [])
+    (hodd : d % 2 = 1) (hdB : d < B) (hs : s ≤ 63) (hcin : cin < B) :
+    HenselSpec x d s cin (rsh_divrem_hensel_qr_1_1 x d s cin) := by
+  cases x with
+  | nil => exact absurd rfl hne
+  | cons x0 xs =>
+    have hd0 : 0 < d := by omega
+    have hinv := modlimb_invert_mul d hodd
+    have hunf : rsh_divrem_hensel_qr_1_1 (x0 :: xs) d s cin =
+        hensel11Go d (modlimb_invert d) s xs (henselStep d (modlimb_invert d) x0 cin 0).2.1
+          (henselStep d (modlimb_invert d) x0 cin 0).2.2 ((henselStep d (modlimb_invert d) x0 cin 0).1 >>> s) := rfl
+    rw [hunf, hensel11Go_eq]
+    obtain ⟨e, hL, hlen⟩ := henselQ_spec d (modlimb_invert d) hd0 hdB hinv (x0 :: xs) cin 0 (by omega) hx
+    rw [henselQ_cons] at e hL hlen
+    have ⟨hq0, hQs⟩ := Limbs_cons.mp hL
+    obtain ⟨s1, s2, s3⟩ := shrList_spec s hs _ _ hq0 hQs
+    refine ⟨_, e, val_lt_pow _ _ hL hlen, s1, s2, ?_⟩
+    rw [s3]; rw [List.length_cons] at hlen; exact hlen
+
+theorem rsh_divrem_hensel_qr_1_2_spec (x : List Nat) (d s cin : Nat) (hx : Limbs x) (hne : x ≠ [])
+    (hodd : d % 2 = 1) (hdB : d < B) (hs : s ≤ 63) (hcin : cin < B) :
+    HenselSpec x d s cin (rsh_divrem_hensel_qr_1_2 x d s cin) := by
+  cases x with
+  | nil => exact absurd rfl hne
+  | cons x0 xs =>
+    have ⟨hx0, hxs⟩ := Limbs_cons.mp hx
+    have hd0 : 0 < d := by omega
+    have hinv := modlimb_invert_mul d hodd
+    have hml : modlimb_invert d < B := Nat.mod_lt _ B_pos
+    generalize hmldef : modlimb_invert d = ml at *
+    have hunf : rsh_divrem_hensel_qr_1_2 (x0 :: xs) d s cin =
+        hensel12Go d ml ((ml * ((B - (d * ml) / B) % B)) % B) s xs (henselStep d ml x0 cin 0).2.1
+          (henselStep d ml x0 cin 0).2.2 ((henselStep d ml x0 cin 0).1 >>> s) := by
+      rw [← hmldef]; rfl
+    rw [hunf, hensel12Go_eq]
+    obtain ⟨a1, a2, a3, a4⟩ := henselStep_spec d ml x0 cin 0 hx0 (by omega) hd0 hdB hinv
+    obtain ⟨e, hL, hlen⟩ := henselQ2_spec d ml _ hd0 hdB hinv hml rfl xs (henselStep d ml x0 cin 0).2.1
+      (henselStep d ml x0 cin 0).2.2 (by omega) hxs
+    generalize (henselStep d ml x0 cin 0).1 = q0 at *
+    generalize (henselStep d ml x0 cin 0).2.1 = h' at *
+    generalize (henselStep d ml x0 cin 0).2.2 = c' at *
+    generalize henselQ2 d ml ((ml * ((B - (d * ml) / B) % B)) % B) xs h' c' = r at *
+    obtain ⟨s1, s2, s3⟩ := shrList_spec s hs r.1 q0 a1 hL
+    have hLq : Limbs (q0 :: r.1) := Limbs_cons.mpr ⟨a1, hL⟩
+    have hlenq : (q0 :: r.1).length = (x0 :: xs).length := by rw [List.length_cons, hlen, List.length_cons]
+    refine ⟨val (q0 :: r.1), ?_, val_lt_pow _ _ hLq hlenq, s1, s2, by rw [s3, hlen, List.length_cons]⟩
+    show val (x0 :: xs) + r.2 * B ^ (xs.length + 1) = _
+    rw [val_cons, val_cons, pow_succ]
+    generalize val r.1 = Vo at *
+    generalize val xs = Vx at *
+    generalize B ^ xs.length = P at *
+    have : x0 + B * Vx + r.2 * (P * B) = x0 + B * (Vx + r.2 * P) := by ring
+    rw [this, e]
+    have : x0 + B * (Vo * d + (h' + c')) = (x0 + (c' + h') * B) + B * (Vo * d) := by ring
+    rw [this, a4]; ring
+
+theorem rsh_divrem_hensel_qr_1_spec (x : List Nat) (d s cin : Nat) (hx : Limbs x) (hne : x ≠ [])
+    (hodd : d % 2 = 1) (hdB : d < B) (hs : s ≤ 63) (hcin : cin < B) :
+    HenselSpec x d s cin (rsh_divrem_hensel_qr_1 x d s cin) := by
+  unfold rsh_divrem_hensel_qr_1
+  split
+  · exact rsh_divrem_hensel_qr_1_1_spec x d s cin hx hne hodd hdB hs hcin
+  · exact rsh_divrem_hensel_qr_1_2_spec x d s cin hx hne hodd hdB hs hcin
+
+/-- when d divides x − cin the 2-adic quotient is the true quotient, shifted -/
+theorem hensel_exact (x : List Nat) (d s cin : Nat) (res : List Nat × Nat) (h : HenselSpec x d s cin res)
+    (hodd : d % 2 = 1) (hle : cin ≤ val x) (hdvd : d ∣ val x - cin) :
+    val res.1 = (val x - cin) / d / 2 ^ s ∧ Limbs res.1 ∧ res.1.length = x.length := by
+  obtain ⟨Q, e, hQ, hv, hL, hlen⟩ := h
+  have hd0 : 0 < d := by omega
+  have e' : (val x - cin) + res.2 * B ^ x.length = d * Q := by rw [Nat.mul_comm d Q]; omega
+  have := exact_finish d (val x - cin) Q res.2 x.length hodd e' hQ hdvd
+  refine ⟨?_, hL, hlen⟩
+  rw [hv, this, Nat.mul_div_cancel_left _ hd0]
+
+
 end Mpir.DivWord
